@@ -79,6 +79,9 @@ def check_parsers(mode: str, pr: refenc.Produced, entries=None):
                     got = None
                 else:
                     got = T.norm_events(pj.parse(integ, entry, pr.data))
+                    if entry == "flat" and T.norm_events(pj.parse(integ, "flat-prefetched", pr.data)) != got:
+                        return {"clause": "events-differ", "entry": f"{integ}:flat-prefetched",
+                                "summary": f"{integ}: two-step parse (get_options_and_frames, then parse_jelly_flat) differs from the one-step parse"}
             except Exception as e:  # noqa: BLE001
                 return {"clause": "parser-raised", "entry": f"{integ}:{entry}",
                         "summary": f"{integ}:{entry} raised {type(e).__name__}: {e}"}
